@@ -15,6 +15,15 @@ import framework as fw, gen, nums
 
 ID = "C17"
 FAMILY = "krylov"
+LEVEL = "proof"
+ASSUMPTIONS = [
+    "exact arithmetic over an ordered field (executed at Qc); norms carried as squares, `norm_r > tol` compared in squares for tol >= 0",
+    "the operator is a linear map with residual(x,b) = b - A x (proved for the CSR kernels csr_spmv/csr_residual; the distributed SpMV equals the global product by C02)",
+    "a floating-point division by zero is modelled as `non-finite values produced` (the run ends in Broke); +-inf and NaN are merged",
+    "PCG: the preconditioner is an arbitrary map in the theorems; in the correspondence runs it is the matrix defined by the implementation's own ml->cycle(0, e_j) (linearity of the cycle probed per case)",
+    "exact-model comparison for sizes 1..12 and few iterations (the rationals grow quadratically/exponentially); sizes 30..2000 are judged by the oracle alone",
+    "solver variants SeqInner_/SeqNorm_/PI_/Pre_BiCGStab and partial_inner.cpp are not modelled",
+]
 OCAML_SRCS = ("conv.ml", "mat.ml", "drv_krylov.ml")
 PROCS = (1, 2, 3, 5)
 ZT = 1e-16
